@@ -1,4 +1,5 @@
 import StamModel.DataValue
+import StamModel.Lemmas.DvGen
 import StamModel.Lemmas.StoreIds
 /-
   C10 — Annotation data is a deduplicated vocabulary and data search equals a scan.
@@ -59,6 +60,17 @@ theorem int_order (n m : Int) :
     (dvTest (.int n) (.lt m) = true ↔ n < m) ∧ (dvTest (.int n) (.le m) = true ↔ n ≤ m) ∧
     (dvTest (.int n) (.eqi m) = true ↔ n = m) := by
   simp [dvTest]
+
+/-! ### tie to the source: `Stam.Gen.dvTest` is regenerated from `DataValue::test` (src/datavalue.rs) on every run -/
+
+/-- every arm of the source's `DataValue::test` computes what the model's `dvTest` computes (strings are never
+datetimes here: comparing a datetime with a string is outside the model) -/
+theorem source_test_is_the_model (v : DV) (o : DOp) : Gen.dvTest noDt v o = dvTest v o :=
+  gen_dvTest_agrees o v
+
+/-- so the laws above are laws of the source's function -/
+theorem source_not_compl (v : DV) (o : DOp) : Gen.dvTest noDt v (.not o) = !Gen.dvTest noDt v o := by
+  rw [source_test_is_the_model, source_test_is_the_model, not_compl]
 
 theorem string_eq (s t : String) : dvTest (.str s) (.eq t) = true ↔ s = t := by simp [dvTest]
 
